@@ -188,6 +188,11 @@ func checkC15Inner(c *c15Case) error {
 			starts = append(starts, at[0])
 		}
 	}
+	// ... and from user-written cursors over the same tree (fresh objects per call, an uncomparable
+	// value type, positions beyond 32 bits)
+	for k, n := 0, len(starts); k < n; k++ {
+		starts = append(starts, viewOf(starts[k], len(c.Expr)+k))
+	}
 	for _, s := range starts {
 		res, xerr := safeExec(s, &g, set...)
 		if pe, ok := xerr.(*panicError); ok {
